@@ -79,7 +79,19 @@ def operations(profile="full"):
         ["get_defaults", False],
         ["format_help"],
     ]
+    # The same parse calls with the parser's defaults switched off (public keyword defaults=False): the call then starts
+    # from an EMPTY configuration, and an object that the caller supplies as base (namespace=, cfg_base=) is the only
+    # thing underneath the new values.  One variant per parse entry point (the argument forms of one entry point share
+    # the code that looks at the switch) and both forms with a caller-supplied base; core: the latter only.
+    nodef = {"defaults": False}
+    ops.append(["parse_args", "argv+namespace", nodef])
+    ops.append(["parse_object", "dict+cfg_base", nodef])
     if full:
+        ops.append(["parse_args", "argv", nodef])
+        ops.append(["parse_object", "dict", nodef])
+        ops.append(["parse_string", nodef])
+        ops.append(["parse_env", "mapping", nodef])
+        ops.append(["parse_path", nodef])
         ops.append(["get_defaults", True])
         ops.append(["print_config"])
         for name in ("dump", "save"):
@@ -252,6 +264,9 @@ def _with_unknown(ns):
 def prepare(op, parser, shape, cfg, scratch, used=None):
     """-> (callable, [(label, watched object)], environ patch or None, sys.argv replacement or None).
     used: list that receives the name of every library call made on `parser` while preparing the arguments."""
+    kw = {}
+    if isinstance(op[-1], dict):
+        op, kw = op[:-1], op[-1]  # public keyword switches of the observed call (defaults=False ...)
     name = op[0]
     used = used if used is not None else []
 
@@ -294,40 +309,40 @@ def prepare(op, parser, shape, cfg, scratch, used=None):
         form = op[1]
         if form == "argv":
             argv = SH.argv_of(shape, cfg)
-            return (lambda: parser.parse_args(argv)), [("argv", argv)], None, None
+            return (lambda: parser.parse_args(argv, **kw)), [("argv", argv)], None, None
         if form == "argv+namespace":
             ns = SH.build_root(cfg, "ns")
             argv = SH.argv_of(shape, cfg)
-            return (lambda: parser.parse_args(argv, namespace=ns)), [("argv", argv), ("namespace", ns)], None, None
+            return (lambda: parser.parse_args(argv, namespace=ns, **kw)), [("argv", argv), ("namespace", ns)], None, None
         if form == "sys.argv":
             argv = ["prog"] + SH.argv_of(shape, cfg)
-            return (lambda: parser.parse_args()), [], None, argv
+            return (lambda: parser.parse_args(**kw)), [], None, argv
         if form == "environ":
             argv = []
-            return (lambda: parser.parse_args(argv, env=True)), [("argv", argv)], SH.env_of(shape, cfg), None
+            return (lambda: parser.parse_args(argv, env=True, **kw)), [("argv", argv)], SH.env_of(shape, cfg), None
     if name == "parse_object":
         form = op[1]
         if form == "dict":
             obj = SH.build_root(cfg, "dict")
-            return (lambda: parser.parse_object(obj)), [("cfg_obj(dict)", obj)], None, None
+            return (lambda: parser.parse_object(obj, **kw)), [("cfg_obj(dict)", obj)], None, None
         if form == "Namespace":
             obj = SH.build_root(cfg, "ns")
-            return (lambda: parser.parse_object(obj)), [("cfg_obj(Namespace)", obj)], None, None
+            return (lambda: parser.parse_object(obj, **kw)), [("cfg_obj(Namespace)", obj)], None, None
         if form == "parsed":
             obj = parsed()
-            return (lambda: parser.parse_object(obj)), [("cfg_obj(Namespace)", obj)], None, None
+            return (lambda: parser.parse_object(obj, **kw)), [("cfg_obj(Namespace)", obj)], None, None
         if form == "dict+cfg_base":
             obj = SH.build_root(cfg, "dict")
             base = parsed(shape["configs"][0])
-            return (lambda: parser.parse_object(obj, cfg_base=base)), [("cfg_obj(dict)", obj), ("cfg_base", base)], None, None
+            return (lambda: parser.parse_object(obj, cfg_base=base, **kw)), [("cfg_obj(dict)", obj), ("cfg_base", base)], None, None
     if name == "parse_string":
         text = SH.text_of(cfg)
-        return (lambda: parser.parse_string(text)), [], None, None
+        return (lambda: parser.parse_string(text, **kw)), [], None, None
     if name == "parse_env":
         env = SH.env_of(shape, cfg)
         if op[1] == "mapping":
-            return (lambda: parser.parse_env(env)), [("env", env)], None, None
-        return (lambda: parser.parse_env()), [], env, None
+            return (lambda: parser.parse_env(env, **kw)), [("env", env)], None, None
+        return (lambda: parser.parse_env(**kw)), [], env, None
     if name == "parse_path":
         # next to the files that relative paths of the configuration refer to, but not in the cwd of the caller
         path = os.path.join(os.getcwd(), "c08_input.json")
@@ -335,7 +350,7 @@ def prepare(op, parser, shape, cfg, scratch, used=None):
             f.write(SH.text_of(cfg))
         os.makedirs(os.path.join(scratch, "elsewhere"), exist_ok=True)
         os.chdir(os.path.join(scratch, "elsewhere"))
-        return (lambda: parser.parse_path(path)), [], None, None
+        return (lambda: parser.parse_path(path, **kw)), [], None, None
     if name == "get_defaults":
         return (lambda: parser.get_defaults(skip_validation=op[1])), [], None, None
     if name == "format_help":
@@ -647,6 +662,8 @@ def work_item(item):
     cfg = shape["configs"][ci]
     nontrivial = bad is not None or _nontrivial(cfg)
     for op in operations(profile):
+        if op[0] in CONFIG_INDEPENDENT and (ci != 0 or bad is not None):
+            continue  # the call does not involve the configuration: the case of the shape's first item again
         devs, kind = run_one(shape_name, ci, bad, op, out["counts"], warm)
         key = f"{op[0]}:{kind}"
         out["counts"][key] = out["counts"].get(key, 0) + 1
@@ -675,10 +692,17 @@ BAD2 = {"zz": ["zz"]}  # a second kind of invalid value (a mapping): fails later
 # Hand-written shapes that the quick tier runs like the generated family (core alphabet, invalid positions of the first
 # configuration only); the thorough tier runs them in full.  actions_final is the twin of actions_raw (same parser, the
 # declared defaults already in final form): every code path is executed by actions_raw with the full alphabet.
-QUICK_CORE_SHAPES = ("actions_final",)
+# subcommands_optional is the twin of subcommands (same parser, same configurations, add_subcommands(required=False)).
+# Its invalid-position variants are taken on the configurations in which the two differ (no explicit choice / settings
+# of the subcommand that was not chosen).
+QUICK_CORE_SHAPES = {"actions_final": (0,), "subcommands_optional": (3, 4, 5)}
+# Operations whose call does not involve the configuration: executed once per parser shape (and warm state), with the
+# shape's first item - for every other configuration variant the case would be the very same case again.
+CONFIG_INDEPENDENT = ("get_defaults", "format_help")
 # Ten independent arguments with ~60 positions: the ~1500 pairs of invalid positions per configuration would cost more
 # than all other hand-written shapes together; two failures in two independent plain arguments add no code path.
-NO_PAIRS_SHAPES = ("actions_raw", "actions_final")
+# (subcommands_optional: its twin subcommands has the pairs.)
+NO_PAIRS_SHAPES = ("actions_raw", "actions_final", "subcommands_optional")
 
 
 def _independent(p, q):
@@ -689,8 +713,9 @@ def _independent(p, q):
 def items_for(tier):
     """(shape, configuration index, invalid positions or None, operation profile, warm) - the product of the tier.
 
-    quick:    hand-written shapes: every configuration x (valid + every single invalid position) x full alphabet
-              (QUICK_CORE_SHAPES: like the generated family);
+    quick:    hand-written shapes: every configuration x (valid + every single invalid position; of the first six
+              configurations of a shape) x full alphabet (QUICK_CORE_SHAPES: core alphabet, invalid positions of the
+              stated configurations only); get_defaults / format_help once per shape (CONFIG_INDEPENDENT);
               generated nests of depth <= 2 with a declared default (depth 1 also without): the raw-form configuration
               x (valid + every invalid position) and the final-form configuration (valid), core alphabet.
     thorough: hand-written shapes additionally with a second kind of invalid value at every position, with every PAIR
@@ -721,7 +746,7 @@ def items_for(tier):
     if tier == "quick":
         for name in SH.NAMED:
             if name in QUICK_CORE_SHAPES:
-                add(name, "core", bad_for=(0,))
+                add(name, "core", bad_for=QUICK_CORE_SHAPES[name])
             else:
                 add(name, "full")
         for t in SH.gen_types(2):
